@@ -58,6 +58,9 @@ namespace Dune{
     {}
 
   public:
+    //! type of the objects ptr() points to; type() is the MPI datatype of one of them
+    using element_type = std::decay_t<T>;
+
     void* ptr() const {
       return (void*)&data_;
     }
@@ -109,6 +112,9 @@ namespace Dune{
       : data_(t)
     {}
   public:
+    //! type of the objects ptr() points to; type() is the MPI datatype of one of them
+    using element_type = typename std::decay_t<T>::value_type;
+
     static constexpr bool static_size = std::is_const<T>::value || !Std::is_detected_v<hasResizeOp, T>;
     void* ptr() {
       return (void*) data_.data();
